@@ -53,6 +53,23 @@ def names(tier):
                         yield "/" + body
 
 
+def root_relative_names(root):
+    """absolute names built from the root's own absolute path: the root itself, paths inside it,
+    and SIBLINGS whose name merely starts with the root's name (string prefix, not path prefix)"""
+    R = os.path.abspath(root.replace("\\", "/"))
+    out = []
+    for suffix in ("", "-private", "2", ".bak", "_old", " ", "x", "/", "//"):
+        for tail in ("", "/x", "/x/y.txt", "/../x"):
+            for pre in ("", "/", "\\"):
+                name = pre + R + suffix + tail
+                out.append(name)
+                out.append(name.replace("/", "\\"))
+    if R != "/":
+        parent = os.path.dirname(R)
+        out += [parent, parent + "/", parent + "/other", R[:-1], R[:-1] + "/x", R.upper(), R + "\x00"]
+    return out
+
+
 def verdict(root, name, fn):
     """returns None if fine, else (oracle, sig, message)"""
     try:
@@ -96,7 +113,8 @@ def work(arg):
     viols = {}
     n = 0
     distinct_results = set()
-    for i, name in enumerate(names(_TIER)):
+    import itertools as _it
+    for i, name in enumerate(_it.chain(root_relative_names(root), names(_TIER))):
         if i % nparts != k:
             continue
         n += 1
@@ -162,8 +180,23 @@ def run(tier, seed):
     work_init(tier)
     n_paths, caps = router_captures(tier)
     cap_names = sorted(set(c for _, c in caps))
+    from mpgameserver.http_server import Router, Route
+    router = Router()
+    router.registerRoutes([Route("r1", "GET", "/static/:path*", None), Route("r2", "GET", "/:path*", None)])
     for root in ROOTS:
-        for path, cap in caps:
+        extra = []
+        for name in root_relative_names(root):
+            for url in ("/static/" + name, "/static" + name, "/" + name, name):
+                if not url.startswith("/"):
+                    continue
+                n_paths += 1
+                try:
+                    res = router.getRoute("GET", url)
+                except Exception:
+                    res = None
+                if res is not None:
+                    extra.append((url, res[1].get("path") or ""))
+        for path, cap in caps + extra:
             total += 1
             bad, cls = verdict(root, cap, _FN)
             classes.inc("router:" + cls)
@@ -180,7 +213,7 @@ def run(tier, seed):
     rep.coverage = {
         "evaluations": total,
         "distinct_nontrivial": distinct,
-        "rule": "every name = prefix in %r + <=N segments over %r joined by / or \\ (N=%s full alphabet, deeper over %r), "
+        "rule": "absolute names derived from each root's own path (root, inside, parent, siblings sharing the root's name as string prefix) + every name = prefix in %r + <=N segments over %r joined by / or \\ (N=%s full alphabet, deeper over %r), "
                 "x roots %r; plus every :path* capture of the real Router over URL paths of the same alphabet. "
                 "non-trivial = distinct (root, returned path) pairs among calls that returned (did not raise)" % (
                     PREFIXES, SEGS_FULL, 3 if tier == "quick" else 5, SEGS_SMALL, ROOTS),
